@@ -465,6 +465,12 @@ def run(cx, rep):
     # ---------------------------------------------------------------- C13.9
     rep.rule("C13.9", "the orders the digests are computed in are total and do not depend on the host")
     digest_order_rule(cx, rep, "C13.9")
+    # ---------------------------------------------------------------- C13.10
+    rep.rule("C13.10", "hash() / hash256() keep no state on the validator instances (their value depends on the hash context)")
+    from rules.c16 import instance_state_rule
+    _m13 = ts_common.Family(cx).mod
+    instance_state_rule(_m13, None, rep, "C13.10", roots=("hash", "hash256"), what="hash() / hash256()", floor=30,
+                        why="inside a reference cycle the value computed for a node depends on which names the hash context has already seen; a value stored on the (shared) instance is replayed under another context, so the digest of a type depends on which parsers were hashed before")
     # ---------------------------------------------------------------- C13.8
     rep.rule("C13.8", "text reaches the digest as the UTF-8 encoding of the whole string")
     # `TextEncoder.encodeInto(s, dest)` stops at the last whole character that fits into dest and reports how much it
